@@ -103,6 +103,8 @@ type Explorer struct {
 	Reset func(x *Exec)
 	// RecheckEvery re-runs every k-th execution and compares observations.
 	RecheckEvery int64
+	// ShardDepth: generation at which subtrees are assigned to shards (default 2).
+	ShardDepth int
 
 	execs int64
 }
@@ -143,21 +145,30 @@ func samePoints(a, b []point) bool {
 	return true
 }
 
-// own reports whether this shard owns the subtree below the first two choices.
-func (e *Explorer) own(c0, c1 int) bool {
+// own reports whether this shard owns the execution / subtree identified by a
+// choice prefix.
+func (e *Explorer) own(prefix []int) bool {
 	if e.NShards <= 1 {
 		return true
 	}
-	return (c0*31+c1)%e.NShards == e.Shard
+	h := uint64(1469598103934665603)
+	for _, c := range prefix {
+		h = (h ^ uint64(c+1)) * 1099511628211
+		h ^= h >> 29
+	}
+	return int(h%uint64(e.NShards)) == e.Shard
 }
 
 // Explore runs the search. It returns false if it was cut short by the
 // deadline or an infrastructure error.
 //
-// Sharding: the subtree below the first two choices (c0, c1) belongs to shard
-// (c0*31+c1) mod NShards. Executions a shard needs only to discover the
-// alternatives at depth 1 are "probes": they are run but neither counted nor
-// judged nor expanded below depth 1.
+// Sharding is by generation: generation 0 is the root execution, generation g+1
+// are the executions obtained from a generation-g execution by changing one
+// later choice. Every shard walks generations 0..ShardDepth-1 (running the
+// executions it does not own as uncounted probes, only to discover their choice
+// points); a subtree rooted at generation ShardDepth is explored by the one
+// shard that owns the hash of its prefix. Every execution is counted and judged
+// exactly once, by the shard owning its prefix.
 func (e *Explorer) Explore() bool {
 	if e.NShards <= 0 {
 		e.NShards = 1
@@ -165,11 +176,16 @@ func (e *Explorer) Explore() bool {
 	if e.RecheckEvery == 0 {
 		e.RecheckEvery = 997
 	}
+	if e.ShardDepth <= 0 {
+		e.ShardDepth = 2
+	}
+	G := e.ShardDepth
 	type item struct {
 		prefix []int
 		from   int // first point whose alternatives are expanded
+		gen    int
 	}
-	stack := []item{{nil, 0}}
+	stack := []item{{nil, 0, 0}}
 	complete := true
 
 	for len(stack) > 0 {
@@ -181,35 +197,19 @@ func (e *Explorer) Explore() bool {
 		it := stack[len(stack)-1]
 		stack = stack[:len(stack)-1]
 
+		probe := it.gen < G && !e.own(it.prefix)
 		var x *Exec
 		var infra string
-		known := len(it.prefix) >= 2 // only owned subtrees are pushed below depth 1
-		if !known {
+		if probe {
 			x, infra = e.runOnceIn(it.prefix, NewRun("", ""))
-			if infra != "" {
-				e.R.InfraError("%s: %s (prefix %v)", e.Name, infra, it.prefix)
-				return false
-			}
-		}
-		c0, c1 := 0, 0
-		if known {
-			c0, c1 = it.prefix[0], it.prefix[1]
 		} else {
-			if len(x.choices) > 0 {
-				c0 = x.choices[0]
-			}
-			if len(x.choices) > 1 {
-				c1 = x.choices[1]
-			}
-		}
-		probe := !e.own(c0, c1)
-		if !probe {
-			// (for short prefixes the scratch run above only discovered c0, c1)
 			x, infra = e.runOnce(it.prefix)
-			if infra != "" {
-				e.R.InfraError("%s: %s (prefix %v)", e.Name, infra, it.prefix)
-				return false
-			}
+		}
+		if infra != "" {
+			e.R.InfraError("%s: %s (prefix %v)", e.Name, infra, it.prefix)
+			return false
+		}
+		if !probe {
 			e.execs++
 			e.R.Add("executions", 1)
 			e.R.Add("choice_points", int64(len(x.points)))
@@ -247,9 +247,6 @@ func (e *Explorer) Explore() bool {
 			}
 		}
 		for i := len(x.points) - 1; i >= it.from; i-- {
-			if probe && i >= 2 {
-				continue
-			}
 			p := x.points[i]
 			if p.kind == DevK && devBefore[i]+1 > e.DevBound {
 				if p.n > 1 && !probe {
@@ -258,13 +255,13 @@ func (e *Explorer) Explore() bool {
 				continue
 			}
 			for alt := p.n - 1; alt >= 1; alt-- {
-				if i == 1 && !e.own(c0, alt) {
-					continue
-				}
 				np := make([]int, i+1)
 				copy(np, x.choices[:i])
 				np[i] = alt
-				stack = append(stack, item{np, i + 1})
+				if it.gen+1 == G && !e.own(np) {
+					continue
+				}
+				stack = append(stack, item{np, i + 1, it.gen + 1})
 			}
 		}
 	}
